@@ -40,7 +40,7 @@ func propC11(c *Ctx, r *Report) {
 	r.floor("scope.leaveclean", 1)
 	r.Clauses = append(r.Clauses, nameDefaultClause)
 	c.runNameSilentDefault(r, "name.silentdefault", "wgsl/internal/lower", nil)
-	r.floor("name.silentdefault", 5)
+	r.floor("name.silentdefault", 1)
 	r.floor("errflow.usertype-lookups", 20)
 	r.Clauses = append(r.Clauses, argsRoleClause)
 	c.runArgsNameRole(r, "args.namerole", inPkgs("wgsl", "ir"))
